@@ -347,7 +347,7 @@ Qed.
 
 Lemma lstep_inv l o : LInv l -> LInv (fst (lstep l o)).
 Proof.
-  intros [H1 [H2 H3]]. destruct o as [c| |id]; cbn [lstep].
+  intros [H1 [H2 H3]]. destruct o as [c| |id uok]; cbn [lstep].
   - unfold post. destruct (validate c); [|repeat split; assumption].
     destruct (match cf_defaults c with Some d => d | None => (0, 0, 0) end) as [[up down] lt].
     cbn [fst]. unfold LInv. cbn [l_live l_conns l_nextid l_modified]. repeat split; try assumption.
@@ -389,15 +389,19 @@ Proof.
   split; [exact H|]. intros E. rewrite H, E. reflexivity.
 Qed.
 
-Lemma close_conn_releases l id c r :
+Lemma close_conn_releases l id uok c r :
   LInv l -> filter (fun c => Nat.eqb (c_id c) id) (l_conns l) = c :: r ->
-  l_live (fst (close_conn l id)) = l_live l - c_nbuckets c /\
-  ~ In id (map c_id (l_conns (fst (close_conn l id)))).
+  l_live (fst (close_conn l id uok)) = l_live l - c_nbuckets c /\
+  ~ In id (map c_id (l_conns (fst (close_conn l id uok)))).
 Proof.
   intros _ F. unfold close_conn. rewrite F. cbn [fst l_live l_conns]. split; [reflexivity|].
   intros Hin. apply in_map_iff in Hin. destruct Hin as [x [Hx Hin]]. apply filter_In in Hin.
   destruct Hin as [_ Hn]. subst id. rewrite Nat.eqb_refl in Hn. discriminate.
 Qed.
+
+(* the outcome of the underlying Close is irrelevant *)
+Lemma close_conn_any_outcome l id a b : close_conn l id a = close_conn l id b.
+Proof. reflexivity. Qed.
 
 (* an accepted configuration is not in force on any connection accepted before *)
 Lemma old_connections_invalid l c shs k :
